@@ -87,7 +87,7 @@ CHECKS.update({
              "copy inside one vector is dominated by a direction test; natives that differ only in direction read the receiver alike; the default clause of a switch is jumped to only after all case tests; "
              "for(let) copies the loop variables back on every path to the back jump; the VM addresses registers only through operands; script values are sorted stably; "
              "string natives never mix UTF-8 byte quantities with character positions; RegExp natives that run the matcher keep lastIndex. Today's deviations are genuine and listed with failing "
-             "programs; the frame-restore defect was repaired (fix: commit). Further clauses: static class elements run after the class binding and the private methods and in source order; the constant pool shares a string slot by identity; all compilers of a parameter list bind every kind of parameter and record the rest parameter; the packed-arguments flag of compile_arguments is used by every caller; a parser that builds a node keeps every expression it parses. Map/Set containers (IndexMap/IndexSet) are never edited with an order-breaking operation. Every creator of a nested function compiler passes on the class context. Every statement-list compiler creates the list's function declarations first (hoisting; repaired, fix: commit).",
+             "programs; the frame-restore defect was repaired (fix: commit). Further clauses: static class elements run after the class binding and the private methods and in source order; the constant pool shares a string slot by identity; all compilers of a parameter list bind every kind of parameter and record the rest parameter; the packed-arguments flag of compile_arguments is used by every caller; a parser that builds a node keeps every expression it parses. Map/Set containers (IndexMap/IndexSet) are never edited with an order-breaking operation. Every creator of a nested function compiler passes on the class context. Every statement-list compiler creates the list's function declarations first (hoisting; repaired, fix: commit). A break / continue that leaves a finally block discards the parked completion (repaired, fix: commit).",
         ref="4/C01"),
     "C08": dict(
         technique="static analysis: operand provenance + dominance templates on StepResult constructions, who-may-write table and operation-kind table for the ledger, must-pass-through in step(), per-variant sibling comparison of the result mappers; index-domain rule shared with C07",
